@@ -35,9 +35,23 @@ def run_sequence(acc, case):
         from bromelia.statemachine import PeerStateMachine
         inner = PeerStateMachine.get_next_state
 
+        live = [False]
+        h11 = []
+
         def counting(psm, nxt):
             ticks[0] += 1
-            return inner(psm, nxt)
+            was = psm.current_state.name
+            res = inner(psm, nxt)
+            # H11 (online, at the transition itself): once the machine has left Closed, the tick that takes it back to Closed
+            # releases the transport and ends the ticking - "Closed implies the transport has been released" at the moment
+            # Closed is reported, not a few ticks later
+            if nxt != "Closed":
+                live[0] = True
+            elif live[0] and not h11:
+                tr = getattr(psm.association, "transport", None)
+                if tr is not None or psm.is_running:
+                    h11.append("transition %s -> Closed left transport=%s is_running=%r" % (was, "held" if tr is not None else "released", psm.is_running))
+            return res
         PeerStateMachine.get_next_state = counting
         trace = []
         try:
@@ -89,6 +103,9 @@ def run_sequence(acc, case):
                     d = obs["deaths"][0]
                     acc.violation("task-died:%s:%s:on-%s-in-%s" % (d["task"].replace("client_", "").replace("server_", ""), d["type"], ev, model),
                                   "%s died with %s on event %s in model state %s: %s" % (d["task"], d["exc"], ev, model, d["traceback"][-400:]), wit)
+                    return
+                if h11:
+                    acc.violation("closed-reported-with-transport-not-released:on-%s-in-%s" % (ev, model), h11[0], wit)
                     return
                 psm = run.psm_task()
                 final = exp["next"] in (scen.CLOSED, scen.DEAD) or got == scen.CLOSED
